@@ -319,3 +319,62 @@ func VP_C04_KindChange() {
 	zzvp.Assert(fok && string(f) == "F" && ook && string(o) == "O", "no untracked file and no other working file is removed or modified")
 	zzvp.Done()
 }
+
+// VP_C04_Three: with three or four staged entries, removing one that is not the last (rm, add of a deleted tracked file,
+// restore --staged of a new file) leaves exactly the others, still in ascending order and still addressable one by one.
+func VP_C04_Three() {
+	vpInitRepo()
+	w := zzvp.Root()
+	var names []string
+	for i := 0; i < 3; i++ {
+		n := vpComp("n"+string(rune('0'+i)), 1)
+		for _, o := range names {
+			zzvp.Assume(o != n)
+		}
+		zzvp.WriteFile(w+"/"+n, []byte{byte('1' + i)})
+		names = append(names, n)
+	}
+	vpOK(zzvp.Run("add", names[0], names[1], names[2]))
+	victim := names[zzvp.Choose(3)]
+	var r zzvp.Result
+	switch zzvp.Choose(3) {
+	case 0:
+		r = zzvp.Run("rm", victim)
+	case 1:
+		zzvp.RemoveAll(w + "/" + victim)
+		r = zzvp.Run("add", victim)
+	default:
+		// commit the three, stage a fourth, take it back
+		vpOK(zzvp.Run("commit", "-m", "c"))
+		victim = vpComp("n3", 1)
+		for _, o := range names {
+			zzvp.Assume(o != victim)
+		}
+		zzvp.WriteFile(w+"/"+victim, []byte("4"))
+		vpOK(zzvp.Run("add", victim))
+		r = zzvp.Run("restore", "--staged", victim)
+	}
+	zzvp.Assert(r.Exit == 0, "a tracked path can be removed from the staging area")
+	idx, ok := vpReadIndex()
+	sorted := ok
+	for i := 1; i < len(idx); i++ {
+		if !(idx[i-1].path < idx[i].path) {
+			sorted = false
+		}
+	}
+	var want []string
+	for _, n := range names {
+		if n != victim {
+			want = append(want, n)
+		}
+	}
+	zzvp.Assert(sorted && len(idx) == len(want), "exactly the named tracked path is gone from the staging area, the rest stays in ascending order")
+	// every remaining path is still found when named
+	for _, n := range want {
+		zzvp.WriteFile(w+"/"+n, []byte("dirty"))
+		rr := zzvp.Run("restore", n)
+		c, _ := zzvp.ReadFile(w + "/" + n)
+		zzvp.Assert(rr.Exit == 0 && string(c) != "dirty", "every tracked path is found when named to add, rm or restore")
+	}
+	zzvp.Done()
+}
